@@ -137,6 +137,32 @@ def make_flake(case, storeStates="all"):
     return S
 
 
+def apply_current(S, case, pre):
+    """put the case's current settings on an object that was built and run under `pre`"""
+    if "opcond" in pre:
+        oc = case["opcond"]
+        if pre.get("how") == "mutate":
+            S.opcond.t_tot = oc["t_tot"]
+            S.opcond.cooling["rate"] = oc["rate"]
+            S.opcond.cooling["start"] = oc["start"]
+            S.opcond.cooling["end"] = oc["stop"]
+            S.opcond.holding = (None if not oc.get("holds")
+                                else [dict(temp=h[0], duration=h[1]) for h in oc["holds"]])
+            S.opcond.cnTemp = oc.get("cnTemp")
+        else:
+            S.opcond = make_opcond(oc)
+    if "dt" in pre:
+        S.dt = case["dt"]
+    if "T0" in pre:
+        S.T_k_0 = case["T0"]
+    if "k" in pre:
+        for key in ("s0", "s_sigma_rel"):
+            if key in case["k"]:
+                S.k[key] = case["k"][key]
+            elif key in S.k:
+                del S.k[key]
+
+
 def xi_of(seed_v, n):
     """the vial-dependent standard normals, by the same numpy/scipy calls as run()"""
     from scipy.stats import norm
@@ -171,7 +197,14 @@ def run_real(case, script=None):
 
     mode = "script" if script is not None else "record"
     with contextlib.redirect_stdout(io.StringIO()):   # the code prints warnings
-        S = make_flake(case)
+        pre = case.get("pre")
+        S = make_flake({**case, **pre} if pre else case)
+        if pre:
+            # object history: a first run under the `pre` settings, then the CURRENT settings of
+            # the case are put on the same object the way a user would (attribute assignment /
+            # in-place mutation); the observed run is the second one
+            S.run()
+            apply_current(S, case, pre)
         if "pre_config" in case:
             # object history: a first run under `pre_config` (other kinetics), then the
             # configuration in force for the observed run is assigned through `configPath`
